@@ -104,6 +104,9 @@ func gen13(seed int64, tier string) []drv.Case {
 			p.Chunk = uint64([]int{1, 2, 3, 5, 7, 20, 1000}[r.Intn(7)])
 			if fam == "crash" {
 				p.Chunk = uint64([]int{2, 3, 5, 7, 11}[r.Intn(5)]) // several chunks, so that a crash leaves a partial index
+			if i%2 == 0 {
+				p.Chunk = 1 // one chunk per key: a crash may leave 10 or more chunks behind (chunk-10 lists before chunk-2)
+			}
 				p.Second = i%3 == 2
 			}
 			p.Fast = r.Intn(2) == 0
